@@ -49,6 +49,13 @@ def levels(tier):
 
 def battery(E, t, ref, queries):
     trie = t.lru_trie
+    # read-only requests about the queried LRUs come first: they name nothing
+    for q in queries:
+        for fn in (t.get_potential_prefix, t.retrieve_webentity, t.retrieve_prefix, t.get_page_links):
+            try:
+                fn(q.lru)
+            except E.TraphException:
+                pass
     # top-down lookup + bottom-up reconstruction
     for q in queries:
         known = ref.known.has(q.lru)
